@@ -166,6 +166,8 @@ class Scratch:
 
     def __init__(self, tag="vf"):
         self.path = tempfile.mkdtemp(prefix="vf-%s-" % tag, dir=scratch_root())
+        import atexit
+        atexit.register(self.cleanup)
 
     def sub(self, name):
         p = os.path.join(self.path, name)
